@@ -1,4 +1,5 @@
 """C11 — Alephium event fields map faithfully to the attested message."""
+import json
 import core
 from vaa_common import monitor_rows
 
@@ -112,11 +113,14 @@ def mon_key(r, m):
     return "mon:" + m[:70]
 
 def run(ctx):
-    core.run_extract(ctx, ["alphconv", "ral_attest"])
+    st = core.run_extract(ctx, ["alphconv", "ral_attest"])
     core.coq_prove(ctx, "C11")
     if ctx.tier == "thorough":
         core.coq_thorough_audit(ctx, "C11")
-    rc, out, trace = core.harness_pkg(ctx, "alephium", "^TestVerifC11$")
+    # the harness builds attestation payloads and events the way the contracts do, from the layout extracted just now
+    ral = st.get("ral_attest", {})
+    env = {"VERIF_C11_RAL": json.dumps(ral["info"])} if ral.get("ok") else {}
+    rc, out, trace = core.harness_pkg(ctx, "alephium", "^TestVerifC11$", env=env)
     rows = core.read_jsonl(trace)
     if rc != 0 or not rows:
         ctx.problem("correspondence", "go harness C11", out[-1500:])
